@@ -229,6 +229,30 @@ def _is_container_box(o):
     return isinstance(v, (tuple, list, dict))
 
 
+def _same_space(gvs, xs):
+    """vspace equality as C05 states it: same structure and shape, real for real / complex for complex, and the same dtype
+    for default-precision arguments (float64 / complex128 / Python scalars); reduced-precision arguments only fix the kind."""
+    if gvs == xs:
+        return True
+    if type(gvs) is not type(xs):
+        return False
+    gs, xsh = getattr(gvs, "shape", None), getattr(xs, "shape", None)
+    if isinstance(xsh, (tuple, list, dict)) and not all(isinstance(d, int) for d in (xsh if not isinstance(xsh, dict) else [])):
+        # container spaces: compare leaf-wise
+        try:
+            if isinstance(xsh, dict):
+                return isinstance(gs, dict) and list(gs) == list(xsh) and all(_same_space(gs[k], xsh[k]) for k in xsh)
+            return len(gs) == len(xsh) and all(_same_space(a, b) for a, b in zip(gs, xsh))
+        except Exception:
+            return False
+    xd, gd = getattr(xs, "dtype", None), getattr(gvs, "dtype", None)
+    if xd is None or gd is None or gs != xsh:
+        return False
+    if xd in (onp.dtype("float64"), onp.dtype("complex128")):
+        return gd == xd
+    return gd.kind == xd.kind
+
+
 def _reverse(A, f_ag, argnum, call_args, x):
     r = {}
     try:
@@ -257,7 +281,7 @@ def _reverse(A, f_ag, argnum, call_args, x):
                 r["box_in_result"] = True
             try:
                 gvs = A["vspace"](g)
-                if not (gvs == xs) and struct_bad is None:
+                if not _same_space(gvs, xs) and struct_bad is None:
                     struct_bad = (repr(gvs)[:200], repr(xs)[:200])
             except Exception as e:
                 struct_bad = struct_bad or ("no vspace: %s" % type(e).__name__, repr(xs)[:200])
@@ -267,7 +291,7 @@ def _reverse(A, f_ag, argnum, call_args, x):
             g = vjp(outvs.zeros())
             try:
                 gvs = A["vspace"](g)
-                if not (gvs == xs):
+                if not _same_space(gvs, xs):
                     struct_bad = (repr(gvs)[:200], repr(xs)[:200])
             except Exception as e:
                 struct_bad = ("no vspace: %s" % type(e).__name__, repr(xs)[:200])
@@ -311,7 +335,7 @@ def _forward(A, f_ag, argnum, call_args, x):
                 r["box_in_result"] = True
             try:
                 tvs, vvs = A["vspace"](t), A["vspace"](val)
-                if not (tvs == vvs) and struct_bad is None:
+                if not _same_space(tvs, vvs) and struct_bad is None:
                     struct_bad = (repr(tvs)[:200], repr(vvs)[:200])
             except Exception as e:
                 struct_bad = struct_bad or ("no vspace: %s" % type(e).__name__, "")
